@@ -605,6 +605,10 @@ var verifStablePairs = []verifPP{
 	{"h = {k: Sym.a}\nv = h.delete(:k)\nw = h.values\n", "g = {j: 1}\nu = g.values\ndbtp u\nt = g.delete(:j)\ndbtp t\n", "hash-delete-values"},
 	{"a = [Sym.a, Sym.b]\nb = a + [1]\nc = a - [1]\n", "d = [1] + [2]\ndbtp d\ne = [1] - [2]\ndbtp e\n", "array-plus-minus"},
 	{"x = Sym.u\ny = x == Sym.a\nz = x.nil?\n", "w = 2 == 3\ndbtp w\nv = 2.nil?\ndbtp v\n", "compare-on-union-receiver"},
+	{"s = \"x\"\ns.upcase = Sym.a\n", "t = \"y\".upcase\ndbtp t\n", "assignment-through-builtin-call"},
+	{"n = 5\nn.to_s ||= Sym.a\n", "t = 3.to_s\ndbtp t\n", "or-assignment-through-builtin-call"},
+	{"s = \"a\"\ns.length, c = Sym.a, 2\n", "t = \"zz\".length\ndbtp t\n", "multiple-assignment-through-builtin-call"},
+	{"a = [1]\na.first = Sym.a\na.length = Sym.a\n", "t = [2].first\ndbtp t\nu = [2].length\ndbtp u\n", "assignment-through-array-call"},
 }
 
 func verifCountLines(s string) int { return strings.Count(s, "\n") }
